@@ -37,8 +37,8 @@ CHECKS = {
   design="3 C20"),
  "C16": dict(
   engine="E1-style explicit-state search over byte strings (isolated workers)",
-  technique="explicit-state search: states = byte strings reached from ~1000 valid elementary-stream seeds by every single deviation (bit, byte, word, truncation, inserted runs, spliced huge Exp-Golomb code at every bit offset) plus all short strings; every state fed to every codec-helper entry point in RLIMIT_AS-isolated workers; oracle per call: recovered panic, time, allocated bytes",
-  text="Seeds: every single-deviation SPS/PPS/slice NAL unit of the ref/h264syn and ref/h265syn serializers (618), captured and constructed SEI NAL units and payloads (~600), length-prefixed samples and Annex B streams of 1-3 units, avcC/hvcC/av1C records, ADTS headers and AudioSpecificConfigs. Deviations: all bit flips, 7 boundary values per byte, 14 boundary 32-bit words + remaining-length family and 6 boundary 16-bit words at every offset, every truncation, 0xff/0x00 runs inserted at every offset, ue(255..2^32-2) spliced at every RBSP bit offset; all byte strings of length <= 2 (thorough: <= 3) and alphabet strings up to length 4 (5). Each of ~3 million (thorough: ~25 million) inputs goes to all 79 targets (NAL walkers, Annex B scanners, SPS/PPS/slice parsers with parameter-set maps that resolve every id, SEI extraction and every SEI decoder with String/Payload/Size and re-write, ADTS, AudioSpecificConfig, AVC/HEVC/AV1 configuration records with re-encode).",
+  technique="explicit-state search: states = byte strings reached from ~2000 valid elementary-stream seeds by every single deviation (bit, byte, word, truncation, inserted runs, spliced-in and replaced Exp-Golomb codes at every bit offset) plus all short strings; every state fed to every codec-helper entry point in RLIMIT_AS-isolated workers; oracle per call: recovered panic, time, allocated bytes",
+  text="Seeds: every single-deviation SPS/PPS/slice NAL unit of the ref/h264syn and ref/h265syn serializers, slice NAL units of (parameter-set deviation, slice deviation) pairs, captured and constructed SEI NAL units and payloads (~600), length-prefixed samples and Annex B streams of 1-3 units, avcC/hvcC/av1C records, ADTS headers and AudioSpecificConfigs. Deviations: all bit flips, 7 boundary values per byte, 14 boundary 32-bit words + remaining-length family and 6 boundary 16-bit words at every offset, every truncation, 0xff/0x00 runs inserted at every offset, ue(255..2^32-2) spliced at every RBSP bit offset; the Exp-Golomb code starting at every RBSP bit offset replaced by boundary values 15..2^64-1, ue(2^64-1) spliced in; all byte strings of length <= 2 (thorough: <= 3) and alphabet strings up to length 4 (5). Each of ~5 million (thorough: ~35 million) inputs goes to all 83 general targets, and every deviation of a slice seed (single deviations and pairs of a parameter-set level with a slice level deviation) additionally to ParseSliceHeader with the parameter sets that slice was written against; chained targets parse the input as SPS/PPS and, when accepted, parse the seed slices with it (NAL walkers, Annex B scanners, SPS/PPS/slice parsers with parameter-set maps that resolve every id, SEI extraction and every SEI decoder with String/Payload/Size and re-write, ADTS, AudioSpecificConfig, AVC/HEVC/AV1 configuration records with re-encode).",
   note="Exhaustive over ring 1 of the seeds and the short-string bound, not over all byte strings. Budgets: 2 s and 256 KiB + 1024 x len allocated bytes per call (re-measured 3 times, minimum taken, because the runtime publishes allocation statistics in batches). The run functions of cmd/mp4ff-nallister and cmd/mp4ff-pslister are driven through overlay drivers on Annex B streams (all single deviations) and on two fragmented files (length-preserving deviations inside mdat payloads and avcC/hvcC records only); their oracle is panic/hang only.",
   design="3 C16"),
  "C15": dict(
